@@ -94,7 +94,8 @@ def main():  # pylint: disable=R1710
                     optimized = optimize(expanded)
                     resolved = resolve(optimized, start=wal.eval_context.global_environment.environment)
                 except AssertionError as error:
-                    wal.print_error(sexpr, error)
+                    wal.eval_context.print_error(sexpr, error)
+                    raise WalEvalError() from error
 
                 wal.eval(resolved)
         except WalEvalError as error:
